@@ -91,10 +91,16 @@ def generate(prop, rng, index, tier):
             libs = rng.sample(tops, rng.randint(1, min(2, len(tops))))
             defined = [c[1] or c[0] for sp in universe if sp["name"] in libs for c in sp["commands"]]
             ops.append(["LOAD", libs, rng.choice(defined) if rng.random() < 0.75 else rng.choice(CMD_NAMES[:7])])
-        else:
+        elif r < 0.94:
             cfg = rng.choice(["csv", "netcdf"])
             libs = rng.sample(tops, rng.randint(0, 1))
             ops.append(["BUILTIN", cfg, libs, rng.random() < 0.5])
+        else:
+            # the command-line tool invoked in this process (as an embedding application or a test runner would)
+            libs = rng.sample(tops, rng.randint(0, 2))
+            defined = [c[1] or c[0] for sp in universe if sp["name"] in libs for c in sp["commands"]]
+            name = rng.choice(defined) if defined and rng.random() < 0.7 else rng.choice(CMD_NAMES[:7])
+            ops.append(["CLI", rng.choice(["csv", "netcdf"]), libs, name])
     # the same request repeated at another point of the history
     progs = [op for op in ops if op[0] == "PROGRAM"]
     if progs and rng.random() < 0.6:
@@ -221,6 +227,7 @@ def _child(sc, scratch, wfd):
         root = tempfile.mkdtemp(prefix="reg-", dir=os.path.join(scratch, "work"))
         try:
             _write_universe(root, sc["universe"])
+            os.environ["MPSIM_REG_ROOT"] = root
             sys.path.insert(0, root)
             loader.activate(scratch, import_mpilot=False)
             if any(m == "mpilot" or m.startswith("mpilot.") for m in sys.modules):
@@ -411,6 +418,49 @@ def _run_history(sc, res, log, Program, MPilotError, mc, importlib):
         elif op[0] == "BUILTIN":
             check_program(op[2], builtin=op[1], label="BUILTIN")
             res.probe("built-in %s configuration" % op[1])
+        elif op[0] == "CLI":
+            cfg, libs, name = op[1], op[2], op[3]
+            import io
+            from mpilot.cli.mpilot import main as cli_main
+            path = os.path.join(os.environ["MPSIM_REG_ROOT"], "model_%d.mpt" % len(answers))
+            with open(path, "w") as f:
+                f.write("X = %s()\n" % name)
+            argv = ["eems-" + cfg, path]
+            for lib in libs:
+                argv += ["-l", lib]
+            so, se = sys.stdout, sys.stderr
+            sys.stdout, sys.stderr = io.StringIO(), io.StringIO()
+            code, err = 0, None
+            try:
+                cli_main.main(args=argv, standalone_mode=False)
+            except SystemExit as exc:
+                code = exc.code
+            except Exception as exc:  # noqa
+                err = exc
+            finally:
+                sys.stdout, sys.stderr = so, se
+            for lib in libs:
+                note_import(lib)
+                for sub in packages.get(lib, []):
+                    imported.add(sub)
+            names, dups = expected(libs)
+            from ..refmodel.declarations import table
+            bnames = set(table(cfg))
+            dups = set(dups) | {n for n in names if n in bnames}
+            ok_expected = (not dups) and name in names
+            log.emit("cli", cfg=cfg, libs=libs, name=name, code=code if isinstance(code, int) else repr(code),
+                     exc=type(err).__name__ if err else None)
+            res.probe("command-line tool invoked in the process")
+            if err is not None:
+                res.violate("C19.error", "C19.error cli-raised-%s" % type(err).__name__, "CLI %r raised %r" % (argv[2:], err))
+            elif ok_expected and code not in (0, None):
+                res.violate("C19.spurious", "C19.spurious cli-failed",
+                            "mpilot %s -l %s on 'X = %s()' failed although %r defines it unambiguously"
+                            % (cfg, ",".join(libs), name, names.get(name)))
+            elif not ok_expected and code in (0, None) and name not in bnames:
+                res.violate("C19.lookup", "C19.lookup cli-foreign-command-visible" if not dups else "C19.dup cli-duplicate-not-rejected",
+                            "mpilot %s -l %s accepted 'X = %s()' (requested libraries define: %r, duplicated: %r)"
+                            % (cfg, ",".join(libs), name, sorted(names), sorted(dups)))
         elif op[0] == "LOAD":
             libs, name = op[1], op[2]
             names, dups = None, None
@@ -498,7 +548,7 @@ def execute(sc):
     res.state_keys = b["state_keys"]
     res.case_key = h64([sc["universe"], sc["ops"]])
     res.schedule_key = h64([sc["ops"], sc["perm_seed"]])
-    res.nontrivial = sum(1 for op in sc["ops"] if op[0] in ("PROGRAM", "LOAD", "BUILTIN")) >= 1 and len(sc["ops"]) >= 2
+    res.nontrivial = sum(1 for op in sc["ops"] if op[0] in ("PROGRAM", "LOAD", "BUILTIN", "CLI")) >= 1 and len(sc["ops"]) >= 2
     return res
 
 
@@ -538,7 +588,7 @@ def shrink_candidates(sc):
             used.add(op[1].split(".")[0])
         elif op[0] in ("PROGRAM", "LOAD"):
             used.update(x.split(".")[0] for x in op[1])
-        elif op[0] == "BUILTIN":
+        elif op[0] in ("BUILTIN", "CLI"):
             used.update(op[2])
     for i, spec in enumerate(sc["universe"]):
         if spec["name"] not in used and len(sc["universe"]) > 1:
